@@ -47,6 +47,18 @@ def _normalize_title_quotes(title: str) -> str:
     return f'"{escaped}"'
 
 
+def _normalize_def_title(raw_title: str) -> str:
+    """
+    Normalize the title of a link reference definition. Unlike for inline links, Marko keeps
+    the raw title here, with its delimiters (`"..."`, `'...'` or `(...)`) and backslash escapes.
+    """
+    title = raw_title
+    if len(title) >= 2 and (title[0], title[-1]) in (('"', '"'), ("'", "'"), ("(", ")")):
+        title = title[1:-1]
+    title = re.sub(r"\\([\"'()])", r"\1", title)
+    return _normalize_title_quotes(title)
+
+
 def _min_fence_length(code_content: str, fence_char: str = "`") -> int:
     """
     Calculate the minimum fence length needed for code content.
@@ -598,7 +610,7 @@ class MarkdownNormalizer(Renderer):
         self._skip_next_blank_line = False
         link_text = element.dest
         if element.title:
-            link_text += f" {_normalize_title_quotes(element.title)}"
+            link_text += f" {_normalize_def_title(element.title)}"
         result = f"{self._prefix}[{element.label}]: {link_text}\n"
         self._prefix = self._second_prefix
         self._suppress_item_break = True
@@ -618,7 +630,11 @@ class MarkdownNormalizer(Renderer):
         link_title = _normalize_title_quotes(element.title) if element.title else None
         assert self.root_node
         label = next(
-            (k for k, v in self.root_node.link_ref_defs.items() if v == (element.dest, link_title)),
+            (
+                k
+                for k, v in self.root_node.link_ref_defs.items()
+                if (v[0], _normalize_def_title(v[1]) if v[1] else None) == (element.dest, link_title)
+            ),
             None,
         )
         if label is not None:
